@@ -188,7 +188,7 @@ func buildCase(c *Case) ([]*tree.Tree, error) {
 }
 
 func genCase(t *rapid.T, thorough bool) Case {
-	c := Case{Chain: rapid.SampledFrom([]string{"newick-nexus", "newick-nexus", "newick-phyloxml", "nexus-phyloxml", "multinewick", "multinewick", "single-multi", "single-multi"}).Draw(t, "chain")}
+	c := Case{Chain: rapid.SampledFrom([]string{"newick-nexus", "newick-nexus", "newick-phyloxml", "nexus-phyloxml", "multinewick", "multinewick", "single-multi", "single-multi", "multinexus"}).Draw(t, "chain")}
 	o := gen.Opts{MinTips: 2, MaxTips: 9, BigTips: 30, Rooted: -1, MaxDeg: 5, Lens: gen.AnyPresence, LenVals: gen.Arbitrary, Sups: gen.AnyPresence, InnerNames: gen.AnyPresence}
 	if thorough {
 		o.BigTips = 120
@@ -204,6 +204,12 @@ func genCase(t *rapid.T, thorough bool) Case {
 		c.GotreeDoc = c.Format != "nextstrain" && rapid.Bool().Draw(t, "gotreedoc")
 		c.NexusOpts = docs.NexusOpts{Translate: rapid.Bool().Draw(t, "tr"), Taxa: rapid.Bool().Draw(t, "taxa"), Comments: rapid.Bool().Draw(t, "com"), Lower: rapid.Bool().Draw(t, "lower"), InlineEnd: rapid.Bool().Draw(t, "inlineend")}
 	}
+	if c.Chain == "multinexus" {
+		// an independent Nexus document read by the multi-tree reader: tree names all different or all
+		// the same, one TREE statement possibly without its '='
+		c.NexusOpts = docs.NexusOpts{Translate: rapid.Bool().Draw(t, "tr"), Taxa: rapid.Bool().Draw(t, "taxa"), InlineEnd: rapid.Bool().Draw(t, "inlineend"),
+			SameNames: rapid.IntRange(0, 2).Draw(t, "samenames") == 0}
+	}
 	if c.Chain == "nexus-phyloxml" {
 		// the independent Nexus document ends its TRANSLATE command with ';' on a line of its own or
 		// right after the last entry ("5 e;"), with or without a TAXA block
@@ -215,7 +221,7 @@ func genCase(t *rapid.T, thorough bool) Case {
 		n = rapid.IntRange(11, 25).Draw(t, "ntreesmany") // longer lists (more than 10 trees)
 	}
 	c.Trees = []*ref.Node{base}
-	sameTaxa := c.Chain == "newick-nexus" || c.Chain == "nexus-phyloxml" || (c.Chain == "single-multi" && c.Format == "nexus")
+	sameTaxa := c.Chain == "newick-nexus" || c.Chain == "nexus-phyloxml" || c.Chain == "multinexus" || (c.Chain == "single-multi" && c.Format == "nexus")
 	for i := 1; i < n; i++ {
 		if sameTaxa {
 			p := gen.Perturb(t, base, rapid.IntRange(0, 3).Draw(t, "npert"), true, gen.Arbitrary)
@@ -224,6 +230,9 @@ func genCase(t *rapid.T, thorough bool) Case {
 		} else {
 			c.Trees = append(c.Trees, gen.Tree(t, o))
 		}
+	}
+	if c.Chain == "multinexus" && rapid.IntRange(0, 3).Draw(t, "noequal") == 0 {
+		c.NexusOpts.NoEqual = 1 + rapid.IntRange(0, n-1).Draw(t, "noequalat")
 	}
 	c.Mapped = relabel(t, c.Trees)
 	if (c.Chain == "newick-nexus" || c.Chain == "newick-phyloxml" || c.Chain == "nexus-phyloxml") && rapid.IntRange(0, 3).Draw(t, "hashist") == 0 {
@@ -494,6 +503,44 @@ func check(c Case) error {
 			return fmt.Errorf("%d records delivered, expected %d (trees in file: %d, broken member: %d)\n%q", next, want, len(ms), c.Broken, doc)
 		}
 		return nil
+	case "multinexus":
+		doc := docs.Nexus(c.Trees, c.NexusOpts)
+		var recs []tree.Trees
+		for r := range utils.ReadMultiTrees(bufio.NewReader(strings.NewReader(doc)), utils.FORMAT_NEXUS) {
+			recs = append(recs, r)
+		}
+		failed := false
+		for i, r := range recs {
+			if r.Err != nil {
+				failed = true
+				if i != len(recs)-1 {
+					return fmt.Errorf("a record followed the error record\n%s", doc)
+				}
+			}
+		}
+		if c.NexusOpts.NoEqual > 0 {
+			// a statement that is not valid: an error must be reported, or (a lenient reader) every
+			// tree delivered - never fewer trees and no error
+			if !failed && len(recs) != len(c.Trees) {
+				return fmt.Errorf("TREE statement %d of %d lacks its '=': %d trees delivered and no error reported\n%s", c.NexusOpts.NoEqual, len(c.Trees), len(recs), doc)
+			}
+			return nil
+		}
+		if failed {
+			return fmt.Errorf("valid Nexus document: the multi-tree reader reports an error: %v\n%s", recs[len(recs)-1].Err, doc)
+		}
+		if len(recs) != len(c.Trees) {
+			return fmt.Errorf("%d trees in the Nexus document, %d delivered\n%s", len(c.Trees), len(recs), doc)
+		}
+		for i, r := range recs {
+			if r.Id != i {
+				return fmt.Errorf("record %d carries id %d\n%s", i, r.Id, doc)
+			}
+			if err := same("multi-tree reader (nexus)", i, r.Tree, c.Trees[i], true); err != nil {
+				return fmt.Errorf("%v\n%s", err, doc)
+			}
+		}
+		return nil
 	case "single-multi":
 		f := map[string]int{"newick": utils.FORMAT_NEWICK, "nexus": utils.FORMAT_NEXUS, "phyloxml": utils.FORMAT_PHYLOXML, "nextstrain": utils.FORMAT_NEXTSTRAIN}[c.Format]
 		var doc string
@@ -612,7 +659,7 @@ func layoutTexts(parts []string, l docs.Layout) string {
 func TestC13Formats(t *testing.T) {
 	h.Run(t, h.Spec[Case]{
 		Property: "C13", Name: "formats", Quick: 16000, Thorough: 640000,
-		Rule: "lists of 1..5 trees (2..9 tips, 5% up to 30/120) with labels legal in all three formats (graphic non-blank runes without ()[],:;=<>&'\", Nexus keywords mapped to k_, numeric tip labels, in one list in six the tips are named 0..n-1 or 1..n in an order unrelated to the tree, unique names over tips and inner nodes), lengths/supports/p-values/inner names present or not; chains (in a quarter of the cases some of the trees were indexed and then edited in memory by 1-3 operations - re-root, collapse, resolve, NNI, rotate, copy ... - before they are converted, the model read back from the object being what must come back) newick->nexus(+-translate)->newick, Tree.Nexus(), newick->phyloxml->newick, nexus->phyloxml->nexus through gotree's writers and readers compared with the original model (shape, child order, names, lengths, supports); multi-Newick streams in free layout (line breaks after commas, blank and blank-only lines, trailing blanks, CRLF, no final newline, a last line of exactly 4096 / 8192 bytes without end of line, one tip per line with the line end right after the tip name, numbers written as 1.5E-01, two trees on one line) with an optional syntactically broken member: ids consecutive in file order, every tree equal to its record, error record then nothing; first-tree reader vs first record of the multi-tree reader for the four formats on documents written independently or by gotree. Non-trivial = >= 2 trees or an inner name/support, and a layout feature / translate table / format other than plain Newick",
+		Rule: "lists of 1..5 trees (2..9 tips, 5% up to 30/120) with labels legal in all three formats (graphic non-blank runes without ()[],:;=<>&'\", Nexus keywords mapped to k_, numeric tip labels, in one list in six the tips are named 0..n-1 or 1..n in an order unrelated to the tree, unique names over tips and inner nodes), lengths/supports/p-values/inner names present or not; chains (in a quarter of the cases some of the trees were indexed and then edited in memory by 1-3 operations - re-root, collapse, resolve, NNI, rotate, copy ... - before they are converted, the model read back from the object being what must come back) newick->nexus(+-translate)->newick, Tree.Nexus(), newick->phyloxml->newick, nexus->phyloxml->nexus through gotree's writers and readers compared with the original model (shape, child order, names, lengths, supports); independent Nexus documents (tree names all different or all the same, with or without TAXA block and translate table, one TREE statement possibly without its '=') through the multi-tree reader: every tree in file order equal to its model, or an error for the invalid statement - never fewer trees without error; multi-Newick streams in free layout (line breaks after commas, blank and blank-only lines, trailing blanks, CRLF, no final newline, a last line of exactly 4096 / 8192 bytes without end of line, one tip per line with the line end right after the tip name, numbers written as 1.5E-01, two trees on one line) with an optional syntactically broken member: ids consecutive in file order, every tree equal to its record, error record then nothing; first-tree reader vs first record of the multi-tree reader for the four formats on documents written independently or by gotree. Non-trivial = >= 2 trees or an inner name/support, and a layout feature / translate table / format other than plain Newick",
 		Gen: genCase, Check: check,
 		Classify: func(c Case) (bool, []string) {
 			l := []string{"chain:" + c.Chain}
